@@ -400,11 +400,10 @@ Lemma prune_blocks_hk : forall d kh e cnt n carry, Forall hk_only carry ->
 Proof.
   induction cnt; simpl; intros n carry Hc; [constructor|].
   destruct (find_num n (d_fam d FSU)) as [sb|]; [|constructor].
-  specialize (IHcnt (n + 1) [] ltac:(constructor)).
-  destruct (prune_blocks d kh e (n + 1) cnt []) as [r ok]. simpl in *. constructor; auto.
-  apply Forall_app. split; auto. apply Forall_app. split.
-  - destruct (n + 1 =? e); repeat constructor; discriminate.
-  - constructor; [simpl; split; discriminate|]. destruct kh; repeat constructor; discriminate.
+  specialize (IHcnt (n + 1) [WDel FHashNum n (b_id sb)] ltac:(repeat constructor; discriminate)).
+  destruct (prune_blocks d kh e (n + 1) cnt [WDel FHashNum n (b_id sb)]) as [r ok]. simpl in *. constructor; auto.
+  apply Forall_app. split; auto.
+  constructor; [simpl; split; discriminate|]. destruct kh; repeat constructor; discriminate.
 Qed.
 
 Lemma prune_plan_shape2 : forall W d kh e,
@@ -513,7 +512,7 @@ Qed.
 
 (* ---------- the filter initialisation: fill ---------- *)
 Definition good_wr (W : N) (d : disk) (h : N) (w : wr) : Prop :=
-  exists a c, w = WWindow a (Some c) /\ a mod W = 0 /\ a + W - 1 <= h /\
+  w = WSnapDel \/ exists a c, w = WWindow a (Some c) /\ a mod W = 0 /\ a + W - 1 <= h /\
     forall x, In x (d_fam d FHeader) -> floor0 d <= b_num x -> a <= b_num x -> b_num x <= a + W - 1 -> ccol c x.
 
 Lemma fill_cover : forall W d h hbH, InvS W d h hbH -> forall cnt rf from, 0 < W ->
@@ -550,7 +549,7 @@ Proof.
         as [R1 R2]; cbn [rf_from rf_cols rf_err rf_to]; auto; try lia;
         try (intros n A B; apply Hh; lia); try (intros x Hx Hf L3 L4; lia).
       split; auto. constructor; auto.
-      exists (rf_from rf), ((from, b_bloom hbf) :: rf_cols rf). repeat split; auto; try lia.
+      right. exists (rf_from rf), ((from, b_bloom hbf) :: rf_cols rf). repeat split; auto; try lia.
       intros x Hx Hf L3 L4. apply Hcov'; auto. lia.
     + apply N.eqb_neq in E.
       destruct (IHcnt {| rf_from := rf_from rf; rf_cols := (from, b_bloom hbf) :: rf_cols rf; rf_next := from + 1; rf_err := false |} (from + 1) HW)
@@ -574,7 +573,11 @@ Qed.
 Lemma reinit_cover : forall W d, 0 < W -> consistent W d = true -> cont d = true -> IdxD W d ->
   MemCover d (reinit W d) /\ forall h, d_height d = Some h -> Forall (good_wr W d h) (reinit_w W d).
 Proof.
-  intros W d HW Hc Hk [wc wk sn]. unfold reinit, reinit_w. destruct (d_height d) as [h|] eqn:Hh.
+  intros W d HW Hc Hk [wc wk sn].
+  cut (MemCover d (reinit W d) /\ forall h, d_height d = Some h -> Forall (good_wr W d h) (reinit_fill_w W d)).
+  { intros [A B]. split; auto. intros h Hh. unfold reinit_w. apply Forall_app. split; auto.
+    unfold snap_consume_w. rewrite Hh. destruct (d_snap d); repeat constructor. }
+  unfold reinit, reinit_fill_w. destruct (d_height d) as [h|] eqn:Hh.
   2:{ split; [|intros; discriminate]. intros x Hx. pose proof (proj1 (consistent_none W d Hh) Hc) as (_ & Hf & _).
       rewrite Hf in Hx. destruct Hx. }
   pose proof (proj1 (consistent_some W d h Hh) Hc) as [Hsn [hb I]].
@@ -633,10 +636,14 @@ Qed.
 Lemma init_write_idx : forall W d0 h d w, IdxD W d -> good_wr W d0 h w ->
   d_fam d FHeader = d_fam d0 FHeader -> d_fam d FCommit = d_fam d0 FCommit ->
   IdxD W (apply_batch d [w]) /\ d_fam (apply_batch d [w]) FHeader = d_fam d0 FHeader /\
-  d_fam (apply_batch d [w]) FCommit = d_fam d0 FCommit /\ d_height (apply_batch d [w]) = d_height d /\
-  d_snap (apply_batch d [w]) = d_snap d.
+  d_fam (apply_batch d [w]) FCommit = d_fam d0 FCommit /\ d_height (apply_batch d [w]) = d_height d.
 Proof.
-  intros W d0 h d w [wc wk sn] (a & c & -> & Ha & Hl & Hcv) EH EC.
+  intros W d0 h d w [wc wk sn] [->|(a & c & -> & Ha & Hl & Hcv)] EH EC.
+  { (* the consumed snapshot is deleted: the snapshot clause becomes vacuous *)
+    split; [|simpl; auto]. constructor.
+    - intros a c hb Hg. apply (wc a c hb). exact Hg.
+    - intros hb. apply (wk hb).
+    - intros s Hsn. simpl in Hsn. discriminate. }
   split; [|simpl; auto].
   assert (Hf : floor0 (apply_batch d [WWindow a (Some c)]) = floor0 d) by reflexivity.
   assert (Hf0 : floor0 d = floor0 d0) by (rewrite !floor0_is, EC; reflexivity).
@@ -755,7 +762,7 @@ Proof.
     destruct (reinit_cover W d1 HW Hc1 Hk1 Hi1) as [Rm Rw].
     assert (Hws : exists h, Forall (good_wr W d1 h) (reinit_w W d1)).
     { destruct (d_height d1) as [h|] eqn:Hh; [exists h; apply Rw; auto|].
-      exists 0. unfold reinit_w. rewrite Hh. constructor. }
+      exists 0. rewrite reinit_w_none by auto. constructor. }
     destruct Hws as [h Hws].
     split.
     + intros j. rewrite firstn_app, apply_batches_app.
@@ -842,7 +849,7 @@ Proof.
   destruct (reinit_cover W d HW Hc Hk Hi) as [Rm Rw].
   assert (Hws : exists h, Forall (good_wr W d h) (reinit_w W d)).
   { destruct (d_height d) as [h|] eqn:Hh; [exists h; apply Rw; auto|].
-    exists 0. unfold reinit_w. rewrite Hh. constructor. }
+    exists 0. rewrite reinit_w_none by auto. constructor. }
   destruct Hws as [h Hws].
   pose proof (init_writes_idx W d h (reinit_w W d) d Hi Hws eq_refl eq_refl
                 (length (map (fun w => [w]) (reinit_w W d)))) as X.
